@@ -18,4 +18,8 @@ VARIANTS = [
  dict(name="keep-overlaps-else-chain", kind="keep", file=SP, old="        if (p1 > p2)\n            i2++;\n        if (p1 < p2)\n            i1++;", new="        if (p2 < p1)\n            i2++;\n        if (p2 > p1)\n            i1++;"),
  dict(name="keep-guard-other-spelling", kind="keep", file=F, old="    if npx == 0: # there are no overlaps (and f2py refuses empty arrays)", new="    if not npx > 0:"),
  dict(name="keep-overlaps-shortcut-when-row-ranges-strictly-disjoint", kind="keep", patch=os.path.join(os.path.dirname(os.path.abspath(__file__)), "patches", "c14_disjoint_rows_shortcut_strict.diff")),
+ dict(name="F24-compress_duplicates-pairs-declared-input-only", kind="break", rule="C14.R6", file="src/_cImageD11.pyf",
+      old="        integer, dimension(n), intent(c, inout) :: i, j\n        integer, dimension(n), intent(c, inout) :: oi, oj", new="        integer, dimension(n), intent(c) :: i, j\n        integer, dimension(n), intent(c, inout) :: oi, oj"),
+ dict(name="overlaps_linear-pairs-keep-the-caller-dtype", kind="break", rule="C14.R6", file="ImageD11/sparseframe.py",
+      old="        r = np.asarray( labels1 )[ self.ki[:npx] ].astype( 'i' )  # my labels", new="        r = np.asarray( labels1 )[ self.ki[:npx] ]  # my labels"),
 ]
